@@ -11,6 +11,7 @@
     `frame_exec`           a command never depends on input it did not reach
 -/
 import YashModel.Input.Steps
+import YashModel.Input.Utf8
 namespace YashModel.Input
 
 /-- ★ `next_line`: the line and the rest are the input; the line has no newline except possibly as
@@ -45,6 +46,76 @@ theorem chunking_irrelevant (n : Nat) (cs ds : List (List Byte)) :
 
 example : linesOfC 9 [[112], [], [10, 113, 10], [114]] = linesOfC 9 [[112, 10], [113], [10, 114]] :=
   (chunking_irrelevant 9 _ _).2.2 (by decide)
+
+/-- ★ `read_char` of the `read` built-in (bytes read one at a time until `from_utf8` accepts the buffer)
+    over a chunked source: the character delivered (or end of input / EILSEQ) and the bytes left are
+    those of the concatenated stream, hence the same for every chunking of the same bytes — wherever
+    the chunk boundaries fall inside a multi-byte character; and a delivered character consumed
+    exactly the bytes of its own UTF-8 sequence, nothing beyond. -/
+theorem read_char_chunking_irrelevant (cs ds : List (List Byte)) :
+    ((readCharCGo [] cs).1, (readCharCGo [] cs).2.flatten) = readChar cs.flatten
+    ∧ (cs.flatten = ds.flatten →
+        (readCharCGo [] cs).1 = (readCharCGo [] ds).1
+        ∧ (readCharCGo [] cs).2.flatten = (readCharCGo [] ds).2.flatten)
+    ∧ (∀ code rest, readChar cs.flatten = (.char code, rest) →
+        ∃ pre, pre ≠ [] ∧ pre ++ rest = cs.flatten ∧ utf8Check pre = .ok code) := by
+  refine ⟨readCharCGo_eq [] cs, ?_, ?_⟩
+  · intro h
+    have h1 := readCharCGo_eq [] cs
+    have h2 := readCharCGo_eq [] ds
+    rw [h] at h1
+    rw [← h2] at h1
+    simp only [Prod.mk.injEq] at h1
+    exact h1
+  · intro code rest h
+    obtain ⟨pre, h1, h2, h3⟩ := readCharGo_exact [] cs.flatten code rest h
+    exact ⟨pre, h1, h2, by simpa using h3⟩
+
+/-- `€` (E2 82 AC) arriving one byte per chunk, followed by a newline: the character, and only its
+    three bytes consumed -/
+example : ((readCharCGo [] [[0xE2], [0x82], [], [0xAC, 10]]).1,
+           (readCharCGo [] [[0xE2], [0x82], [], [0xAC, 10]]).2.flatten) = (.char 0x20AC, [10]) :=
+  (read_char_chunking_irrelevant [[0xE2], [0x82], [], [0xAC, 10]] []).1.trans (by decide)
+
+/-- ★ `chunking_irrelevant` for the `read` built-in's reader: over any chunking of the same bytes `read`
+    delivers the same characters (with their quoting), ends the same way and leaves the same bytes;
+    when it found its delimiter it consumed a prefix of the stream ending with that newline — for
+    `read -r` exactly the first line of the stream, newline included, nothing of the next line. -/
+theorem read_chunking_irrelevant (raw : Bool) (cs ds : List (List Byte)) :
+    ((readLineCGo raw false [] cs []).1, (readLineCGo raw false [] cs []).2.1,
+        (readLineCGo raw false [] cs []).2.2.flatten) = readLine raw cs.flatten []
+    ∧ (cs.flatten = ds.flatten →
+        (readLineCGo raw false [] cs []).1 = (readLineCGo raw false [] ds []).1
+        ∧ (readLineCGo raw false [] cs []).2.1 = (readLineCGo raw false [] ds []).2.1
+        ∧ (readLineCGo raw false [] cs []).2.2.flatten = (readLineCGo raw false [] ds []).2.2.flatten)
+    ∧ ((readLineCGo raw false [] cs []).2.1 = .found →
+        ∃ pre, pre ++ (readLineCGo raw false [] cs []).2.2.flatten = cs.flatten
+          ∧ pre.getLast? = some NL
+          ∧ (raw = true → pre = (nextLine cs.flatten).1
+                          ∧ (readLineCGo raw false [] cs []).2.2.flatten = (nextLine cs.flatten).2)) := by
+  have e1 := readLineCGo_eq raw false [] cs []
+  refine ⟨e1, ?_, ?_⟩
+  · intro h
+    have e2 := readLineCGo_eq raw false [] ds []
+    rw [h] at e1
+    rw [← e2] at e1
+    simp only [Prod.mk.injEq] at e1
+    exact e1
+  · intro hf
+    have hrl : readLineGo raw false [] cs.flatten []
+        = ((readLineCGo raw false [] cs []).1, .found, (readLineCGo raw false [] cs []).2.2.flatten) := by
+      rw [← e1, hf]
+    obtain ⟨pre, h1, h2⟩ := readLineGo_line raw false [] cs.flatten [] _ _ hrl
+    refine ⟨pre, h1, h2, ?_⟩
+    intro hraw
+    subst hraw
+    obtain ⟨pre', h1', h2', h3'⟩ := readLineGo_raw_line [] cs.flatten [] _ _ hrl
+    have hpp : pre' = pre := List.append_cancel_right (h1'.trans h1.symm)
+    subst hpp
+    have := splitLine_unique pre' (readLineCGo true false [] cs []).2.2.flatten h2' h3'
+    rw [h1'] at this
+    rw [nextLine_eq, this]
+    exact ⟨rfl, rfl⟩
 
 /-- ★ (one command line) What the lexer pulled for one `Parser::command_line` is exactly the first
     `k` lines of the input — nothing of line `k+1` — and every shorter non-empty prefix of lines made
